@@ -242,6 +242,16 @@ def prim_invariant(interp, label, cond):
     return None
 
 
+def loop_phase(interp):
+    """'init' | 'assume' | 'preserved' | 'exit' inside a loop contract, else None"""
+    lm = getattr(interp, "loop_mode", None)
+    if lm is None:
+        return None
+    if lm.mode == "assert":
+        return "init" if lm.prefix.endswith("/init") else "preserved"
+    return lm.mode
+
+
 def prim_decreases(interp, expr):
     lm = getattr(interp, "loop_mode", None)
     if lm is None:
@@ -469,8 +479,8 @@ def ghost_apply(interp, g, args, kwargs):
 def unfold(interp, g, args):
     """assume g(args) == body(args), executing the body once"""
     lm = getattr(interp, "loop_mode", None)
-    if lm is not None and lm.mode != "assume":
-        return None   # definitional facts are only needed where the invariant is assumed
+    if lm is not None and lm.mode == "exit":
+        return None
     ts = [encode(interp, a, k) for a, k in zip(args, g.arg_kinds)]
     m0 = as_int(interp.call(g.measure, list(args), {}))
     old = getattr(interp, "_unfolding", None)
